@@ -215,6 +215,86 @@ def main(tier):
                     chk.obligation('GetEigenSystem(3): %s %s cannot vanish' % (what, T.show(t, 3)), 'holds')
                 else:
                     chk.undecided_q('zero set of %s %s' % (what, T.show(t, 3)))
+    # ---- every branch of the closed form: the solver supplies an input that takes the branch inside the domain where the closed form is
+    # usable (all off-diagonal components in [1/4,1], well separated spectrum); the real code must return a valid eigensystem there.  A branch
+    # condition over uninterpreted atoms may give an input that natively takes another branch: the native verdict on that input stands anyway.
+    G3 = gellmann(3)
+    B3 = [np.array([[float(G3[k][i][j][0]) + 1j * float(G3[k][i][j][1]) for j in range(3)] for i in range(3)]) for k in range(9)]
+    seen_pc = set()
+    ex3 = h.executor()
+    ex3.intr['clog'] = cfun('clog')
+    ex3.intr['cpow'] = cfun('cpow')
+    ex3.intr['carg'] = lambda ex_, st, args, ins, name: T.fun('carg', *args)
+
+    def pow_int(ex_, st, args, ins, name):
+        # pow with a small constant integer exponent is a product in exact reals (branch conditions become polynomial)
+        x_, e_ = args
+        if not isinstance(e_, Term) and float(e_) in (2.0, 3.0, 4.0) and isinstance(x_, Term):
+            r_ = x_
+            for _ in range(int(float(e_)) - 1):
+                r_ = T.fmul(r_, x_)
+            return r_
+        return ex_.dom.libm('pow', args)
+    ex3.intr['pow'] = pow_int
+    ex3.intr['llvm.pow.f64'] = pow_int
+    ps3 = h.run('h_eigen', [I(3), I(0), Buf('a', a), Buf('lam', n=3), Buf('vre', n=9), Buf('vim', n=9)], ex=ex3)
+    chk.note_exec(ex3)
+    for p in [p_ for p_ in ps3 if p_.status == 'ok' and p_.ret == 0][:16]:
+        key_pc = tuple(c_.id for c_ in p.pc)
+        if key_pc in seen_pc:
+            continue
+        seen_pc.add(key_pc)
+        br = ' & '.join(T.show(c_, 2) for c_ in p.pc)[:160] or '(no condition)'
+        conv = S.Conv('real')
+        big = solver.timeout_ms
+        solver.timeout_ms = 20000
+        # first choice: small dyadic components (multiples of 1/4), for which the double evaluation of a polynomial branch condition with
+        # integer coefficients is exact, so that a branch taken only on an exact boundary (x == 0) is taken natively as well
+        # (bounded integer problem over q_k = 4 a_k, decided by z3's bit-blasting tactic for bounded non-linear integer arithmetic)
+        r, mdl, vq = 'unknown', None, None
+        try:
+            ints = [z3.Int('q%d' % k) for k in range(n)]
+            zpc = [conv.conv(c_) for c_ in p.pc if isinstance(c_, Term)] + list(conv.side)
+            sub = [(conv.conv(a[k]), z3.ToReal(ints[k]) / 4) for k in range(n)]
+            zpc = [z3.substitute(e_, *sub) for e_ in zpc]
+            rq = 'unknown'
+            for stage in ([ints[k] == 0 for k in (0, 4, 8)], []):        # first operators with zero diagonal, then any small dyadic one
+                sq = z3.Tactic('qfnia').solver()
+                sq.set('timeout', 15000)
+                sq.add(zpc + stage + [z3.And(ints[k] >= 1, ints[k] <= 12) for k in (1, 2, 3, 5, 6, 7)] + [z3.And(ints[k] >= -4, ints[k] <= 4) for k in (0, 4, 8)])
+                t_q = time.time()
+                rq = str(sq.check())
+                if rq == 'sat':
+                    break
+            solver.stats['queries'] += 1
+            solver.stats[rq] = solver.stats.get(rq, 0) + 1
+            solver.stats['time'] += time.time() - t_q
+            if rq == 'sat':
+                vq = [Fraction(sq.model().eval(ints[k], model_completion=True).as_long(), 4) for k in range(n)]
+                r = 'sat'
+        except z3.Z3Exception:
+            pass
+        if r != 'sat':
+            conv = S.Conv('real')
+            dom = [z3.And(conv.conv(a[k]) >= Fraction(1, 4), conv.conv(a[k]) <= 1) for k in range(1, 8)] + [z3.And(conv.conv(a[k]) >= -1, conv.conv(a[k]) <= 1) for k in (0, 8)]
+            r, mdl, _ = solver.check(p.pc, conv=conv, extra=dom, want_model=True, label='GetEigenSystem(3): an input with dense off-diagonal part taking the branch %s' % br[:90])
+        solver.timeout_ms = big
+        if r != 'sat':
+            chk.obligation('GetEigenSystem(3) branch %s: %s inside the dense domain' % (br, 'not taken' if r == 'unsat' else 'no witness found (solver: unknown)'), 'not evaluated')
+            continue
+        v = np.array([float(x_) for x_ in vq]) if vq is not None else np.array([float(S.model_value(mdl, conv, 'a%d' % k)) if ('a%d' % k) in conv.vars else 0.5 for k in range(n)])
+        M = sum(v[k] * B3[k] for k in range(9))
+        ev = np.linalg.eigvalsh(M)
+        if min(ev[1] - ev[0], ev[2] - ev[1]) < 0.05 * max(1.0, abs(ev).max()):
+            chk.obligation('GetEigenSystem(3) branch %s: the solver\'s input has a nearly repeated eigenvalue (outside the clause)' % br, 'not evaluated')
+            continue
+        res = native_eval(h, 3, v)
+        chk.cov['replayed'] += 1
+        if res['finite'] and res['residual'] < 1e-8 and res['unitarity'] < 1e-8:
+            chk.obligation('GetEigenSystem(3) branch %s: at the solver\'s input %s the real code returns a valid eigensystem (residual %.1e)' % (br, [float(x_) for x_ in v], res['residual']), 'holds')
+        else:
+            chk.report('eigen3:branch:%s' % br[:60].replace(' ', ''), 'GetEigenSystem(3) returns an invalid eigensystem (%r) for the dense, non-degenerate input the solver found for the branch %s' % (res, br),
+                       {'vector': list(map(float, v)), 'native': res})
     # ---- no state carried between calls (d=3 closed form): the result for a vector must be the same terms whether or not another vector was
     # decomposed before it in the same thread
     ex2 = h.executor()
